@@ -453,14 +453,15 @@ func (fc *FnCtx) interiorPtr(lv *LV) Term {
 			// addresses of distinct locations are distinct (injective encoding)
 			fc.vc.declUF(name+"_obj", []Sort{SInt}, SInt)
 			fc.vc.declUF(name+"_idx", []Sort{SInt}, SInt)
-			fc.vc.assertGlobal(fmt.Sprintf("(forall ((r Int) (i Int)) (and (= (%s_obj (%s r i)) r) (= (%s_idx (%s r i)) i)))", name, name, name, name))
+			fc.vc.assertGlobal(fmt.Sprintf("(forall ((r Int) (i Int)) (and (= (%s_obj (%s r i)) r) (= (%s_idx (%s r i)) i) (not (= (%s r i) 0))))", name, name, name, name, name))
 		}
 		return mkApp(name, lv.Ref, lv.Idx)
 	}
 	fc.vc.declUF(name, []Sort{SInt}, SInt)
 	if first {
 		fc.vc.declUF(name+"_obj", []Sort{SInt}, SInt)
-		fc.vc.assertGlobal(fmt.Sprintf("(forall ((r Int)) (= (%s_obj (%s r)) r))", name, name))
+		// (the address of a field or element is never the nil pointer)
+		fc.vc.assertGlobal(fmt.Sprintf("(forall ((r Int)) (and (= (%s_obj (%s r)) r) (not (= (%s r) 0))))", name, name, name))
 	}
 	return mkApp(name, lv.Ref)
 }
